@@ -1290,7 +1290,13 @@ fn verify_rrset_with_dnskey(
             );
             Ok((
                 Proof::Secure,
-                Some(rrsig.data().authenticated_ttl(first_record, current_time)),
+                // not longer than the (already authenticated) DNSKEY itself may be trusted
+                Some(
+                    rrsig
+                        .data()
+                        .authenticated_ttl(first_record, current_time)
+                        .min(dnskey.ttl()),
+                ),
             ))
         }
         Err(e) => {
@@ -1430,14 +1436,24 @@ impl ValidationCache {
     ) -> Option<Result<RrsetProof, ProofError>> {
         #[cfg(feature = "verif-hooks")]
         use crate::proto::verif::Instant;
-        let (ttl, cached) = self.inner.lock().get_mut(key)?.clone();
+        let (ttl, mut cached) = self.inner.lock().get_mut(key)?.clone();
 
-        if Instant::now() < ttl {
+        let now = Instant::now();
+        if now < ttl {
             debug!(
                 name = ?context.key.name,
                 record_type = ?context.key.record_type,
                 "returning cached DNSSEC validation",
             );
+            // The authenticated TTL was computed when the entry was inserted; it must keep
+            // counting down so that it never exceeds the remaining lifetime of the entry (and
+            // thereby of the signature, see `insert`).
+            if let Ok(proof) = &mut cached {
+                if let Some(adjusted_ttl) = proof.adjusted_ttl.as_mut() {
+                    let remaining = u32::try_from((ttl - now).as_secs()).unwrap_or(u32::MAX);
+                    *adjusted_ttl = (*adjusted_ttl).min(remaining);
+                }
+            }
             Some(cached)
         } else {
             debug!(
@@ -1481,13 +1497,20 @@ impl ValidationCache {
             return;
         };
 
-        self.inner.lock().insert(
-            key,
-            (
-                Instant::now() + Duration::from_secs(first_record.ttl.into()).clamp(min, max),
-                proof.clone(),
-            ),
-        );
+        let mut lifetime = Duration::from_secs(first_record.ttl.into()).clamp(min, max);
+        // A positive verdict must not outlive the signature it rests on: the authenticated TTL is
+        // already bounded by the signature's remaining validity (RFC 4035 section 5.3.3).
+        if let Ok(RrsetProof {
+            adjusted_ttl: Some(adjusted_ttl),
+            ..
+        }) = &proof
+        {
+            lifetime = lifetime.min(Duration::from_secs((*adjusted_ttl).into()));
+        }
+
+        self.inner
+            .lock()
+            .insert(key, (Instant::now() + lifetime, proof.clone()));
     }
 }
 
